@@ -59,7 +59,7 @@ EXTENDS PoolAbs, SequencesExt
 CONSTANTS MinS, MaxS, QS,     \* sets of min_watermark / max_watermark / max_queue_len values (Init chooses)
           NReq,               \* requests
           NConn,              \* connections that may be created (bound)
-          MaxDie, MaxTmo,     \* bounds on Die / Timeout events
+          MaxDie, MaxTmo,     \* bounds on Die (incl. failed opens) / Timeout events
           ExtClose,           \* BOOLEAN: owner-initiated Close() explored
           FixPQ, FixDeq, FixMaxW
 
@@ -211,7 +211,9 @@ RunTask(imm) ==
 
 OpenDone(c, ok) ==
   /\ st.cst[c] = "opening"
-  /\ Apply(Emit([st EXCEPT !.cst[c] = IF ok THEN "open" ELSE "dead", !.runq = Append(@, <<"RES", c>>)],
+  /\ ok \/ st.ndie < MaxDie          \* a failed open counts as a death (bound)
+  /\ Apply(Emit([st EXCEPT !.cst[c] = IF ok THEN "open" ELSE "dead", !.runq = Append(@, <<"RES", c>>),
+                          !.ndie = IF ok THEN @ ELSE @ + 1],
                 [e |-> "Opened", c |-> c, ok |-> IF ok THEN 1 ELSE 0]))
 
 Respond(r, k) ==
